@@ -1777,3 +1777,1238 @@ Proof.
   injection H as <- _. alia.
 Qed.
 
+
+(* ================= part 5: C16_accessors - UTF-8 cutting lemma; every span end is adjacent to an ASCII byte *)
+(* ---- U1 ---- *)
+
+(* ============================================================ UTF-8: cutting next to an ASCII byte *)
+(* position p of b is adjacent to an ASCII byte, or is one of the two ends *)
+Definition bnd (b : list N) (p : nat) : Prop :=
+  p = 0 \/ length b <= p
+  \/ (exists c, nth_error b p = Some c /\ (c < 128)%N)
+  \/ (exists c, nth_error b (p - 1) = Some c /\ (c < 128)%N /\ 1 <= p).
+
+Lemma bnd_shift a t p : bnd (a :: t) (S p) -> bnd t p.
+Proof.
+  intros H. destruct p as [|p]; [left; reflexivity|].
+  destruct H as [H|[H|[(c & H1 & H2)|(c & H1 & H2 & H3)]]].
+  - discriminate.
+  - right; left. cbn [length] in H. lia.
+  - right; right; left. exists c. cbn [nth_error] in H1. auto.
+  - right; right; right. exists c. cbn [Nat.sub nth_error] in *. rewrite Nat.sub_0_r in *. repeat split; auto. lia.
+Qed.
+
+Lemma bnd_inside b0 b1 t : bnd (b0 :: b1 :: t) 1 -> (128 <= b0)%N -> (128 <= b1)%N -> False.
+Proof.
+  intros [H|[H|[(c & H1 & H2)|(c & H1 & H2 & H3)]]] G0 G1.
+  - discriminate.
+  - cbn [length] in H. lia.
+  - cbn in H1. injection H1 as <-. lia.
+  - cbn in H1. injection H1 as <-. lia.
+Qed.
+
+Lemma in_range_ge lo hi c : in_range lo hi c = true -> (lo <= c)%N /\ (c <= hi)%N.
+Proof. unfold in_range. intros H. apply andb_prop in H. destruct H as [H1 H2]. apply N.leb_le in H1. apply N.leb_le in H2. auto. Qed.
+Lemma cont_ge c : utf8_cont c = true -> (128 <= c)%N.
+Proof. unfold utf8_cont. intros H. apply in_range_ge in H. lia. Qed.
+
+(* the second byte of a 3- or 4-byte sequence is >= 128 in every case *)
+Lemma second3_ge b0 b1 : (if is b0 224 then in_range 160 191 b1 else if is b0 237 then in_range 128 159 b1 else utf8_cont b1) = true -> (128 <= b1)%N.
+Proof. destruct (is b0 224); [|destruct (is b0 237)]; intros H; [apply in_range_ge in H|apply in_range_ge in H|apply cont_ge in H]; lia. Qed.
+Lemma second4_ge b0 b1 : (if is b0 240 then in_range 144 191 b1 else if is b0 244 then in_range 128 143 b1 else utf8_cont b1) = true -> (128 <= b1)%N.
+Proof. destruct (is b0 240); [|destruct (is b0 244)]; intros H; [apply in_range_ge in H|apply in_range_ge in H|apply cont_ge in H]; lia. Qed.
+
+Lemma utf8_valid_unfold b0 t0 : utf8_valid (b0 :: t0) =
+      if N.ltb b0 128 then utf8_valid t0
+      else if in_range 194 223 b0 then
+        match t0 with
+        | b1 :: t1 => utf8_cont b1 && utf8_valid t1
+        | _ => false
+        end
+      else if in_range 224 239 b0 then
+        match t0 with
+        | b1 :: b2 :: t2 =>
+            (if is b0 224 then in_range 160 191 b1
+             else if is b0 237 then in_range 128 159 b1
+             else utf8_cont b1)
+            && utf8_cont b2 && utf8_valid t2
+        | _ => false
+        end
+      else if in_range 240 244 b0 then
+        match t0 with
+        | b1 :: b2 :: b3 :: t3 =>
+            (if is b0 240 then in_range 144 191 b1
+             else if is b0 244 then in_range 128 143 b1
+             else utf8_cont b1)
+            && utf8_cont b2 && utf8_cont b3 && utf8_valid t3
+        | _ => false
+        end
+      else false.
+Proof. reflexivity. Qed.
+
+(* a valid prefix can be dropped *)
+Lemma utf8_valid_app : forall l1 l2, utf8_valid l1 = true -> utf8_valid (l1 ++ l2) = utf8_valid l2.
+Proof.
+  intros l1. remember (length l1) as n eqn:Hn. revert l1 Hn.
+  induction n as [n IH] using lt_wf_ind. intros l1 Hn l2 H.
+  destruct l1 as [|b0 t0]; [reflexivity|].
+  cbn [app]. rewrite utf8_valid_unfold in H. rewrite utf8_valid_unfold.
+  destruct (N.ltb b0 128).
+  { apply (IH (length t0)); [subst; cbn; lia|reflexivity|exact H]. }
+  destruct (in_range 194 223 b0).
+  { destruct t0 as [|b1 t1]; [discriminate|]. cbn [app]. apply andb_prop in H. destruct H as [H1 H2]. rewrite H1. cbn [andb].
+    apply (IH (length t1)); [subst; cbn; lia|reflexivity|exact H2]. }
+  destruct (in_range 224 239 b0).
+  { destruct t0 as [|b1 [|b2 t2]]; try discriminate. cbn [app].
+    apply andb_prop in H. destruct H as [H12 H3]. rewrite H12. cbn [andb].
+    apply (IH (length t2)); [subst; cbn; lia|reflexivity|exact H3]. }
+  destruct (in_range 240 244 b0); [|discriminate].
+  destruct t0 as [|b1 [|b2 [|b3 t3]]]; try discriminate. cbn [app].
+  apply andb_prop in H. destruct H as [H123 H4]. rewrite H123. cbn [andb].
+  apply (IH (length t3)); [subst; cbn; lia|reflexivity|exact H4].
+Qed.
+
+(* the prefix up to a position adjacent to an ASCII byte is valid *)
+Lemma utf8_valid_firstn : forall b p, utf8_valid b = true -> bnd b p -> utf8_valid (firstn p b) = true.
+Proof.
+  intros b. remember (length b) as n eqn:Hn. revert b Hn.
+  induction n as [n IH] using lt_wf_ind. intros b Hn p H B.
+  destruct p as [|p]; [reflexivity|].
+  destruct b as [|b0 t0]; [reflexivity|].
+  cbn [firstn]. rewrite utf8_valid_unfold in H. rewrite utf8_valid_unfold.
+  destruct (N.ltb b0 128) eqn:E0.
+  { apply (IH (length t0)); [subst; cbn; lia|reflexivity|exact H|]. eapply bnd_shift; eauto. }
+  apply N.ltb_ge in E0.
+  destruct (in_range 194 223 b0).
+  { destruct t0 as [|b1 t1]; [discriminate|]. apply andb_prop in H. destruct H as [H1 H2].
+    destruct p as [|p]; [exfalso; eapply bnd_inside; eauto using cont_ge|].
+    cbn [firstn]. rewrite H1. cbn [andb].
+    apply (IH (length t1)); [subst; cbn; lia|reflexivity|exact H2|]. eauto using bnd_shift. }
+  destruct (in_range 224 239 b0).
+  { destruct t0 as [|b1 [|b2 t2]]; try discriminate.
+    apply andb_prop in H. destruct H as [H12 H3]. apply andb_prop in H12. destruct H12 as [H1 H2].
+    pose proof (second3_ge _ _ H1) as G1. pose proof (cont_ge _ H2) as G2.
+    destruct p as [|p]; [exfalso; eapply bnd_inside; eauto|].
+    destruct p as [|p]; [exfalso; apply bnd_shift in B; eapply bnd_inside; eauto|].
+    cbn [firstn]. rewrite H1, H2. cbn [andb].
+    apply (IH (length t2)); [subst; cbn; lia|reflexivity|exact H3|]. eauto using bnd_shift. }
+  destruct (in_range 240 244 b0); [|discriminate].
+  destruct t0 as [|b1 [|b2 [|b3 t3]]]; try discriminate.
+  apply andb_prop in H. destruct H as [H123 H4]. apply andb_prop in H123. destruct H123 as [H12 H3].
+  apply andb_prop in H12. destruct H12 as [H1 H2].
+  pose proof (second4_ge _ _ H1) as G1. pose proof (cont_ge _ H2) as G2. pose proof (cont_ge _ H3) as G3.
+  destruct p as [|p]; [exfalso; eapply bnd_inside; eauto|].
+  destruct p as [|p]; [exfalso; apply bnd_shift in B; eapply bnd_inside; eauto|].
+  destruct p as [|p]; [exfalso; apply bnd_shift in B; apply bnd_shift in B; eapply bnd_inside; eauto|].
+  cbn [firstn]. rewrite H1, H2, H3. cbn [andb].
+  apply (IH (length t3)); [subst; cbn; lia|reflexivity|exact H4|]. eauto using bnd_shift.
+Qed.
+
+Lemma utf8_valid_skipn b p : utf8_valid b = true -> bnd b p -> utf8_valid (skipn p b) = true.
+Proof.
+  intros H B. rewrite <- (utf8_valid_app (firstn p b) (skipn p b)).
+  - rewrite firstn_skipn. exact H.
+  - apply utf8_valid_firstn; assumption.
+Qed.
+
+Lemma bnd_skipn : forall p b q, bnd b q -> p <= q -> bnd (skipn p b) (q - p).
+Proof.
+  induction p as [|p IH]; intros b q B L.
+  - rewrite Nat.sub_0_r. exact B.
+  - destruct q as [|q]; [lia|]. destruct b as [|a t].
+    + cbn [skipn]. right; left. cbn. lia.
+    + cbn [skipn Nat.sub]. apply IH; [|lia]. eapply bnd_shift; eauto.
+Qed.
+
+(* Key lemma of T4: cutting valid UTF-8 at two positions that are adjacent to ASCII bytes (or ends of the string)
+   leaves a valid piece *)
+Lemma utf8_valid_sub b p q : utf8_valid b = true -> bnd b p -> bnd b q -> p <= q -> utf8_valid (sub b p q) = true.
+Proof.
+  intros H Bp Bq L. unfold sub. apply utf8_valid_firstn.
+  - apply utf8_valid_skipn; assumption.
+  - apply bnd_skipn; assumption.
+Qed.
+
+(* ---- B1 ---- *)
+
+(* ================================================= second pass: every span end is adjacent to an ASCII byte *)
+Definition Gi (inp : list N) (s : st) : Prop :=
+  bnd inp (raw_end s) /\ (err s = true -> length inp <= raw_end s).
+
+Lemma is_lt128 c k : is c k = true -> (k < 128)%N -> (c < 128)%N.
+Proof. intros H K. apply is_eq in H. subst. exact K. Qed.
+Lemma ws_lt128 c : is_ws c = true -> (c < 128)%N.
+Proof.
+  unfold is_ws. intros H. repeat (apply orb_prop in H; destruct H as [H|H]); apply is_eq in H; subst; reflexivity.
+Qed.
+Lemma alpha_lt128 c : is_ascii_alphabetic c = true -> (c < 128)%N.
+Proof.
+  unfold is_ascii_alphabetic, is_ascii_uppercase, is_ascii_lowercase. intros H.
+  apply orb_prop in H. destruct H as [H|H]; apply andb_prop in H; destruct H as [H1 H2]; apply N.leb_le in H2; lia.
+Qed.
+
+(* c < 128 from what the tokenizer tested about c *)
+Ltac ascii :=
+  match goal with
+  | |- (?c < 128)%N =>
+      first [ assumption
+            | reflexivity
+            | match goal with H : is_ws c = true |- _ => exact (ws_lt128 c H) end
+            | match goal with H : is_ascii_alphabetic c = true |- _ => exact (alpha_lt128 c H) end
+            | match goal with H : is c ?k = true |- _ => exact (is_lt128 c k H eq_refl) end
+            | match goal with H : _ || _ = true |- _ =>
+                repeat (apply orb_prop in H; destruct H as [H|H]);
+                first [exact (ws_lt128 c H) | exact (alpha_lt128 c H) | eapply is_lt128; [exact H|reflexivity]] end ]
+  end.
+
+Ltac bnds :=
+  match goal with
+  | |- bnd ?inp ?p =>
+      first [ assumption
+            | match goal with H : bnd inp ?q |- _ => replace p with q by alia; exact H end
+            | solve [right; left; alia]
+            | solve [left; alia]
+            | match goal with H : nth_error inp ?q = Some ?c |- _ =>
+                solve [right; right; left; exists c; split; [replace p with q by alia; exact H | ascii]] end
+            | match goal with H : nth_error inp ?q = Some ?c |- _ =>
+                solve [right; right; right; exists c; split; [replace (p - 1) with q by alia; exact H | split; [ascii | alia]]] end ]
+  end.
+
+Ltac gnorm :=
+  norm; unfold Gi in *; norm;
+  repeat match goal with H : ?a = ?b -> _, H' : ?a = ?b |- _ => specialize (H H') end.
+Ltac gfin :=
+  gnorm;
+  repeat (first [ match goal with |- _ /\ _ => split end | progress intros ]); scbn; gnorm; scbn;
+  first [ congruence | bnds | fin1 | idtac ].
+
+Lemma skip_white_space_bnd inp s a s' : wf inp s -> Gi inp s -> skip_white_space inp s = (a, s') -> Gi inp s'.
+Proof.
+  intros W G EQ. pose proof (wf_end _ _ W). unfold skip_white_space in EQ. mstep EQ. mstep EQ.
+  { mstep EQ. exact G. }
+  mstep EQ. mstep EQ.
+  eapply (loop_in_rule inp _
+            (fun _ s2 => raw_end s2 <= length inp /\ Gi inp s2)
+            (fun _ s2 => length inp - raw_end s2)
+            (fun _ s2 => Gi inp s2)) in Eh.
+  - exact Eh.
+  - clear Eh. intros x s2 r s2' HI Eb. norm. mrun Eb; gfin.
+  - auto.
+  - alia.
+Qed.
+
+Definition Ei (inp : list N) (s : st) : Prop := err s = true -> length inp <= raw_end s.
+
+Lemma read_raw_end_tag_ei inp s a s' : wf inp s -> raw_start s + 2 <= raw_end s -> Ei inp s ->
+  read_raw_end_tag inp s = (a, s') -> Ei inp s'.
+Proof.
+  intros W H2 G EQ. pose proof (wf_end _ _ W). unfold Ei in *. unfold read_raw_end_tag in EQ. mstep EQ. mstep EQ.
+  eapply (for_range_rule inp _
+            (fun i s2 => raw_tag s2 = raw_tag s /\ raw_end s2 = raw_end s + i /\ raw_end s2 <= length inp
+                         /\ (err s2 = true -> length inp <= raw_end s2))
+            (fun b s2 => b = false /\ (err s2 = true -> length inp <= raw_end s2))) in Eh.
+  2:{ clear Eh EQ. intros i s2 r s2' _ Hi (Ht & L1 & L2 & G2) Eb. cbn [Nat.add] in Hi.
+      mstep Eb; mstep Eb; cbn [err set_raw_end set_err] in Eb.
+      - mstep Eb. { mstep Eb. gfin. }
+        mstep Eb. cbn [raw_tag set_raw_end] in Eh.
+        destruct (index_of_ok 6 (raw_tag s2) i inp (set_raw_end (S (raw_end s2)) s2)) as (c & Hc & Ec); [rewrite Ht; exact Hi|].
+        rewrite Ec in Eh. apply pair_equal_spec in Eh. destruct Eh as [<- <-].
+        assert (Hlo : (97 <= c)%N) by (eapply tag_byte; [|exact Hc]; rewrite Ht; apply W).
+        mstep Eb.
+        { mstep Eb. gfin. }
+        mstep Eb. cbn [raw_tag set_raw_end] in Eh. rewrite Ec in Eh. apply pair_equal_spec in Eh. destruct Eh as [<- <-].
+        mstep Eb. rewrite sub_u8_ok in Eh by lia. apply pair_equal_spec in Eh. destruct Eh as [<- <-].
+        mstep Eb.
+        { mstep Eb. gfin. }
+        mstep Eb. mstep Eb. gfin.
+      - mstep Eb. gfin. }
+  2:{ wsplit; auto; alia. }
+  destruct a0 as [b|].
+  - destruct Eh as (-> & G2). mstep EQ. exact G2.
+  - destruct Eh as (Ht & L1 & L2 & G2). rewrite Nat.add_0_l in *.
+    mstep EQ; mstep EQ; cbn [err set_raw_end set_err] in EQ.
+    + mstep EQ. { mstep EQ. gfin. }
+      mstep EQ.
+      * mstep EQ. cbn [raw_end raw_tag set_raw_end] in Eh. rewrite Ht in Eh.
+        rewrite dec_raw_end_ok in Eh by (pcbn; lia). apply pair_equal_spec in Eh. destruct Eh as [<- <-].
+        mstep EQ. gfin.
+      * mstep EQ. mstep EQ. gfin.
+    + mstep EQ. gfin.
+Qed.
+
+(* ---- B2 ---- *)
+
+Definition ptrue (inp : list N) (s : st) : Prop := True.
+Definition pnoerr (inp : list N) (s : st) : Prop := err s = false.
+Definition plt (k : nat) (inp : list N) (s : st) : Prop := nth_error inp (raw_end s - k) = Some LT.
+
+(* the script states may stop anywhere inside the body only at EOF; an end tag stops them at its '<' *)
+Definition bspec (X : nat -> M unit) (k c : nat) (P : list N -> st -> Prop) (f : nat) : Prop :=
+  forall inp s a s', wf inp s -> raw_tag s = s_script -> raw_start s + k <= raw_end s ->
+    3 * (length inp - raw_end s) + c <= f -> Ei inp s -> P inp s -> X f inp s = (a, s') -> Gi inp s'.
+
+Definition bspec_all (f : nat) : Prop :=
+  bspec read_script_data 0 1 ptrue f /\ bspec read_script_data_less_than_sign 1 3 (plt 1) f
+  /\ bspec read_script_data_end_tag_open 2 2 (plt 2) f /\ bspec read_script_data_escape_start 2 2 ptrue f
+  /\ bspec read_script_data_escape_start_dash 3 2 ptrue f /\ bspec read_script_data_escaped 0 1 ptrue f
+  /\ bspec read_script_data_escaped_dash 0 1 ptrue f /\ bspec read_script_data_escaped_dash_dash 0 1 ptrue f
+  /\ bspec read_script_data_escaped_less_than_sign 1 3 (plt 1) f /\ bspec read_script_data_escaped_end_tag_open 2 2 (plt 2) f
+  /\ bspec read_script_data_double_escape_start 2 5 pnoerr f /\ bspec read_script_data_double_escaped 0 1 ptrue f
+  /\ bspec read_script_data_double_escaped_dash 0 1 ptrue f /\ bspec read_script_data_double_escaped_dash_dash 0 1 ptrue f
+  /\ bspec read_script_data_double_escaped_less_than_sign 1 3 (plt 1) f /\ bspec read_script_data_double_escaped_end 2 2 (plt 2) f.
+
+Ltac egfin := unfold Ei, ptrue, plt, pnoerr in *; gfin.
+
+(* side conditions of a recursive call *)
+Ltac pside :=
+  unfold ptrue, plt, pnoerr, Ei, Gi in *;
+  first [ exact I
+        | solve [scbn; assumption]
+        | solve [side]
+        | solve [gfin]
+        | solve [scbn;
+                 match goal with
+                 | |- nth_error ?inp ?p = Some ?k =>
+                     match goal with H : nth_error inp ?q = Some ?c, C : is ?c k = true |- _ =>
+                       replace p with q by alia; rewrite H; f_equal; apply is_eq; exact C end
+                 end] ].
+
+Ltac brec_leaf EQ :=
+  match goal with
+  | H : bspec ?X _ _ _ ?f |- _ =>
+      match type of EQ with X f _ _ = _ => eapply H in EQ; [ | pside .. ] end
+  end.
+
+Ltac end_tag_step2 EQ :=
+  let F := fresh "F" in let D := fresh "D" in let L := fresh "L" in let Ht := fresh "Ht" in let Hf := fresh "Hf" in
+  let Be := fresh "Be" in
+  match goal with Eh : read_raw_end_tag _ _ = (?b, _) |- _ =>
+    let Eh2 := fresh "Eh2" in pose proof Eh as Eh2;
+    apply read_raw_end_tag_spec in Eh; [ | side | side ]; destruct Eh as (F & D & L & Ht & Hf);
+    apply read_raw_end_tag_ei in Eh2; [ | side | side | assumption ]; rename Eh2 into Be;
+    destruct b; [specialize (Ht eq_refl); clear Hf | specialize (Hf eq_refl); clear Ht]
+  end.
+
+Lemma bspec_step f : bspec_all f -> bspec_all (S f).
+Proof.
+  intros (H1 & H2 & H3 & H4 & H5 & H6 & H7 & H8 & H9 & H10 & H11 & H12 & H13 & H14 & H15 & H16).
+  unfold bspec_all. repeat match goal with |- _ /\ _ => split end.
+  all: intros inp s a s' W T K Fu G P EQ; pose proof (wf_end _ _ W); pose proof (wf_start _ _ W); script_unfold_in EQ.
+  1,2,4,5,6,7,8,9,12,13,14,15: (mrun EQ; try (brec_leaf EQ); try exact EQ; egfin).
+  - (* end_tag_open *) mstep EQ. end_tag_step2 EQ; mrun EQ; try (brec_leaf EQ); try exact EQ; egfin.
+  - (* escaped_end_tag_open *) mstep EQ. end_tag_step2 EQ; mrun EQ; try (brec_leaf EQ); try exact EQ; egfin.
+  - (* double_escape_start *)
+    mstep EQ. mstep EQ.
+    eapply (for_range_rule inp _
+              (fun i s2 => fr s s2 /\ raw_end s2 + 1 = raw_end s + i /\ raw_end s2 <= length inp /\ Ei inp s2)
+              (fun (b : bool) s2 => fr s s2 /\ raw_end s <= raw_end s2 + 1 /\ raw_end s2 <= length inp /\ Ei inp s2
+                                    /\ (b = true -> Gi inp s2))) in Eh.
+    2:{ clear Eh EQ. intros i s2 r s2' _ Hi (F & L1 & L2 & G2) Eb. cbn [Nat.add length s_script] in Hi.
+        mrun Eb; egfin. }
+    2:{ egfin. }
+    destruct a0 as [[|]|]; cbv beta iota in EQ.
+    + mrun EQ. egfin.
+    + destruct Eh as (F & L1 & L2 & G2 & _). brec_leaf EQ. exact EQ.
+    + cbn [length s_script Nat.add] in Eh. mrun EQ; try (brec_leaf EQ); try exact EQ; egfin.
+  - (* double_escaped_end *)
+    mstep EQ. end_tag_step2 EQ.
+    + rewrite T in Ht. cbn [length s_script] in Ht.
+      mrun EQ; try (brec_leaf EQ); try exact EQ; egfin.
+    + mrun EQ; try (brec_leaf EQ); try exact EQ; egfin.
+Qed.
+
+(* ---- B3 ---- *)
+
+Lemma bspec_all_holds : forall f, bspec_all f.
+Proof.
+  induction f as [|f IH]; [|apply bspec_step; exact IH].
+  unfold bspec_all. repeat match goal with |- _ /\ _ => split end; intros inp s a s' W T K Fu G P EQ; exfalso; lia.
+Qed.
+
+Lemma read_script_bnd inp s a s' : wf inp s -> raw_tag s = s_script -> Ei inp s -> read_script inp s = (a, s') -> Gi inp s'.
+Proof.
+  intros W T G EQ. pose proof (wf_end _ _ W). pose proof (wf_start _ _ W).
+  unfold read_script in EQ. mstep EQ. unfold script_fuel in Eh. mstep Eh. mstep Eh.
+  mstep EQ. apply (proj1 (bspec_all_holds _)) in Eh; [|side|exact T|alia|alia|exact G|exact I]. mstep EQ. egfin.
+Qed.
+
+Lemma read_raw_or_cdata_bnd inp s a s' : wf inp s -> Ei inp s -> read_raw_or_cdata inp s = (a, s') -> Gi inp s'.
+Proof.
+  intros W G EQ. pose proof (wf_end _ _ W). pose proof (wf_start _ _ W). unfold read_raw_or_cdata in EQ.
+  mstep EQ. mstep EQ.
+  - apply str_eqb_spec in C. mstep EQ. apply read_script_bnd in Eh; auto. mrun EQ. egfin.
+  - clear C. mstep EQ.
+    eapply (loop_in_rule inp _
+              (fun _ t => fr s t /\ raw_start s <= raw_end t /\ raw_end t <= length inp /\ Ei inp t)
+              (fun _ t => length inp - raw_end t)
+              (fun _ t => Gi inp t)) in Eh.
+    + cbv zeta in EQ. mrun EQ. egfin.
+    + clear Eh EQ. intros x t r t' HI Eb. unfold Ei in *. norm.
+      mstep Eb; mstep Eb; scbn.
+      2:{ mrun Eb; egfin. }
+      mstep Eb. { mrun Eb; egfin. }
+      mstep Eb. { mrun Eb; egfin. }
+      mstep Eb; mstep Eb; scbn.
+      2:{ mrun Eb; egfin. }
+      mstep Eb. { mrun Eb; egfin. }
+      mstep Eb. { mrun Eb; egfin. }
+      mstep Eb. pose proof Eh as Eh2.
+      apply read_raw_end_tag_spec in Eh; [|wfs|scbn; alia].
+      apply read_raw_end_tag_ei in Eh2; [|wfs|scbn; alia|unfold Ei; scbn; congruence].
+      destruct Eh as (F2 & D2 & L2 & Ht & Hf). mstep Eb.
+      lazymatch type of Ht with ?b = true -> _ => destruct b; [specialize (Ht eq_refl)|specialize (Hf eq_refl)] end.
+      * mrun Eb; egfin.
+      * mrun Eb; egfin.
+    + egfin.
+    + alia.
+Qed.
+
+Lemma read_until_close_angle_bnd inp s a s' : wf inp s -> Gi inp s -> read_until_close_angle inp s = (a, s') ->
+  Gi inp s' /\ bnd inp (data_start s') /\ bnd inp (data_end s').
+Proof.
+  intros W G EQ. pose proof (wf_end _ _ W). unfold read_until_close_angle in EQ. mstep EQ. mstep EQ. mstep EQ.
+  eapply (loop_in_rule inp _
+            (fun _ s2 => raw_end s2 <= length inp /\ Ei inp s2 /\ data_start s2 = raw_end s)
+            (fun _ s2 => length inp - raw_end s2)
+            (fun _ s2 => Gi inp s2 /\ bnd inp (data_start s2) /\ bnd inp (data_end s2))) in Eh.
+  - exact Eh.
+  - clear Eh. intros x s2 r s2' HI Eb. unfold Ei in *. norm. mrun Eb; egfin.
+  - egfin.
+  - scbn. alia.
+Qed.
+
+(* ---- B4 ---- *)
+
+(* the last dc bytes before position q (as far as they lie after ds) are dashes *)
+Definition dashes (inp : list N) (ds q dc : nat) : Prop :=
+  forall j, j < dc -> ds + j < q -> nth_error inp (q - 1 - j) = Some DASH.
+
+Lemma dashes_0 inp ds q : dashes inp ds q 0.
+Proof. intros j Hj. lia. Qed.
+Lemma dashes_S inp ds q dc : dashes inp ds q dc -> nth_error inp q = Some DASH -> dashes inp ds (S q) (dc + 1).
+Proof.
+  intros D Hq j Hj Hl. destruct j as [|j].
+  - replace (S q - 1 - 0) with q by lia. exact Hq.
+  - replace (S q - 1 - S j) with (q - 1 - j) by lia. apply D; lia.
+Qed.
+(* a data end k bytes before q, inside the run of dashes: before ds (it will be clamped) or at a dash *)
+Lemma dashes_bnd inp ds q dc k : dashes inp ds q dc -> 1 <= k -> k <= dc -> k <= q -> q - k < ds \/ bnd inp (q - k).
+Proof.
+  intros D K1 K2 K3. destruct (lt_dec (ds + (k - 1)) q) as [Hl|Hl].
+  - right. right; right; left. exists DASH. split; [|reflexivity].
+    replace (q - k) with (q - 1 - (k - 1)) by lia. apply D; lia.
+  - left. lia.
+Qed.
+
+Lemma read_comment_bnd inp s a s' : wf inp s -> 2 <= raw_end s -> Gi inp s -> read_comment inp s = (a, s') ->
+  Gi inp s' /\ bnd inp (data_start s') /\ bnd inp (data_end s').
+Proof.
+  intros W H2 G EQ. pose proof (wf_end _ _ W). unfold read_comment in EQ. mstep EQ. mstep EQ.
+  eapply (loop_in_rule inp _
+            (fun (dc : nat) s2 => raw_end s <= raw_end s2 /\ raw_end s2 <= length inp /\ Ei inp s2 /\ data_start s2 = raw_end s
+                                  /\ dashes inp (raw_end s) (raw_end s2) dc)
+            (fun _ s2 => length inp - raw_end s2)
+            (fun _ s2 => Gi inp s2 /\ data_start s2 = raw_end s /\ (data_end s2 < raw_end s \/ bnd inp (data_end s2)))) in Eh.
+  - cbv zeta in EQ. destruct Eh as (G2 & D2 & [Hd|Hd]); mrun EQ; unfold Gi in *; norm; scbn; wsplit; auto; try congruence;
+      try (rewrite D2; assumption); try alia.
+  - clear Eh EQ. intros dc s2 r s2' HI Eb. unfold Ei in *. destruct HI as (L1 & L2 & E2 & D2 & DS).
+    mstep Eb; mstep Eb; scbn.
+    + (* byte read *)
+      mstep Eb.
+      { (* err set although the read succeeded: excluded by the invariant *) exfalso. first [specialize (E2 C)|specialize (E2 eq_refl)]. alia. }
+      mstep Eb.
+      { mstep Eb. apply is_eq in C0. subst. scbn. split; [wsplit; auto; try alia; try congruence|alia].
+        apply dashes_S; assumption. }
+      mstep Eb.
+      { mstep Eb.
+        - mrun Eb. scbn. unfold Gi. wsplit; scbn; auto; try congruence; try bnds.
+          replace (S (raw_end s2) - 3) with (raw_end s2 - 2) by alia. apply (dashes_bnd inp _ _ dc 2); auto; alia.
+        - mstep Eb. scbn. split; [wsplit; auto; try alia; try congruence; apply dashes_0|alia]. }
+      mstep Eb.
+      { mstep Eb.
+        - mstep Eb; mstep Eb; scbn.
+          + mstep Eb. { exfalso. congruence. }
+            mstep Eb.
+            * mrun Eb. scbn. unfold Gi. wsplit; scbn; auto; try congruence; try bnds.
+              replace (S (S (raw_end s2)) - 4) with (raw_end s2 - 2) by alia. apply (dashes_bnd inp _ _ dc 2); auto; alia.
+            * mstep Eb. scbn. split; [wsplit; auto; try alia; try congruence; apply dashes_0|alia].
+          + mrun Eb. scbn. unfold Gi. wsplit; scbn; auto; try congruence; try bnds; try alia. right. bnds.
+        - mstep Eb. scbn. split; [wsplit; auto; try alia; try congruence; apply dashes_0|alia]. }
+      mstep Eb. scbn. split; [wsplit; auto; try alia; try congruence; apply dashes_0|alia].
+    + (* EOF *)
+      cbv zeta in Eb. destruct (2 <? dc) eqn:Hdc; [apply Nat.ltb_lt in Hdc | apply Nat.ltb_ge in Hdc]; cbv beta iota in Eb; mrun Eb;
+        scbn; unfold Gi; wsplit; scbn; auto; try congruence; try bnds; try alia.
+      * apply (dashes_bnd inp _ _ dc 2); auto; alia.
+      * destruct dc as [|dc]. { right. rewrite Nat.sub_0_r. bnds. }
+        apply (dashes_bnd inp _ _ (S dc) (S dc)); auto; alia.
+  - destruct G as [G1 G2]. wsplit; auto; try alia. intros j Hj Hl. scbn. lia.
+  - scbn. alia.
+Qed.
+
+(* ---- B5 ---- *)
+
+Lemma doctype_byte_lo i c : nth_error s_DOCTYPE i = Some c -> (c + 32 < 128)%N.
+Proof.
+  intros E. assert (B : forallb (fun c => N.ltb (c + 32) 128) s_DOCTYPE = true) by reflexivity.
+  rewrite forallb_forall in B. apply N.ltb_lt. apply B. eapply nth_error_In; eauto.
+Qed.
+Lemma cdata_byte_lo i c : nth_error s_CDATA i = Some c -> (c < 128)%N.
+Proof.
+  intros E. assert (B : forallb (fun c => N.ltb c 128) s_CDATA = true) by reflexivity.
+  rewrite forallb_forall in B. apply N.ltb_lt. apply B. eapply nth_error_In; eauto.
+Qed.
+
+Lemma read_doc_type_bnd inp s a s' : wf inp s -> raw_start s <= data_start s -> data_start s <= raw_end s ->
+  Ei inp s -> bnd inp (data_start s) -> bnd inp (raw_end s) ->
+  read_doc_type inp s = (a, s') ->
+  Gi inp s' /\ (a = true -> bnd inp (data_start s') /\ bnd inp (data_end s')).
+Proof.
+  intros W D1 D2 E Bd Br EQ. pose proof (wf_end _ _ W). pose proof (wf_start _ _ W). unfold read_doc_type in EQ. mstep EQ.
+  eapply (for_range_rule inp _
+            (fun i s2 => fr s s2 /\ raw_end s <= raw_end s2 /\ raw_end s2 <= length inp /\ data_start s2 = data_start s
+                         /\ Gi inp s2)
+            (fun (b : bool) s2 => b = false /\ Gi inp s2)) in Eh.
+  2:{ clear Eh EQ. intros i s2 r s2' _ Hi HI Eb. unfold Gi, Ei in *. norm. cbn [length s_DOCTYPE Nat.add] in Hi.
+      mstep Eb; mstep Eb; scbn.
+      - mstep Eb. { mrun Eb; egfin. }
+        mstep Eb. mstep Eb.
+        { mrun Eb. pose proof (doctype_byte_lo _ _ Hc) as Hlo. apply is_eq in C0.
+          match type of C0 with ?x = _ => assert (x < 128)%N by (rewrite C0; lia) end. egfin. }
+        mstep Eb. mstep Eb. rewrite add_u8_ok in Eh by (eapply doctype_byte; eassumption).
+        apply pair_equal_spec in Eh; destruct Eh as [<- <-]. mstep Eb.
+        { mrun Eb. apply is_eq in C1.
+          match type of C1 with ?x = (?y + 32)%N => match goal with Hy : nth_error s_DOCTYPE _ = Some y |- _ =>
+            assert (x < 128)%N by (rewrite C1; exact (doctype_byte_lo _ _ Hy)) end end. egfin. }
+        mrun Eb. egfin.
+      - mrun Eb; egfin. }
+  2:{ unfold Gi. egfin. }
+  destruct a0 as [b|]; cbv beta iota in EQ.
+  - destruct Eh as (-> & G2). mstep EQ. split; [exact G2|discriminate].
+  - destruct Eh as (F & L1 & L2 & D3 & G2).
+    assert (W2 : wf inp s0) by (eapply wf_fr; eauto; alia).
+    mstep EQ. pose proof Eh as Eh2. apply skip_white_space_spec in Eh; [|exact W2].
+    apply skip_white_space_bnd in Eh2; [|exact W2|exact G2].
+    destruct Eh as (F3 & L3 & L4 & _ & _).
+    assert (W3 : wf inp s1) by (eapply wf_fr; eauto; pose proof (wf_start _ _ W2); alia).
+    mstep EQ. mstep EQ.
+    + mrun EQ. unfold Gi, Ei in *. norm. scbn. wsplit; auto; try congruence.
+    + mstep EQ. apply read_until_close_angle_bnd in Eh; [|exact W3|exact Eh2]. mrun EQ. tauto.
+Qed.
+
+(* the last br bytes before q are ']' *)
+Definition brackets (inp : list N) (q br : nat) : Prop :=
+  forall j, j < br -> nth_error inp (q - 1 - j) = Some RBRACKET.
+
+Lemma read_cdata_bnd inp s a s' : wf inp s -> raw_start s <= data_start s -> data_start s <= raw_end s ->
+  Ei inp s -> bnd inp (data_start s) -> bnd inp (raw_end s) ->
+  read_cdata inp s = (a, s') ->
+  Gi inp s' /\ (a = true -> bnd inp (data_start s') /\ bnd inp (data_end s')).
+Proof.
+  intros W D1 D2 E Bd Br EQ. pose proof (wf_end _ _ W). pose proof (wf_start _ _ W). unfold read_cdata in EQ. mstep EQ.
+  eapply (for_range_rule inp _
+            (fun i s2 => fr s s2 /\ raw_end s <= raw_end s2 /\ raw_end s2 <= length inp /\ data_start s2 = data_start s
+                         /\ Gi inp s2)
+            (fun (b : bool) s2 => b = false /\ Gi inp s2)) in Eh.
+  2:{ clear Eh EQ. intros i s2 r s2' _ Hi HI Eb. unfold Gi, Ei in *. norm. cbn [length s_CDATA Nat.add] in Hi.
+      mstep Eb; mstep Eb; scbn.
+      - mstep Eb. { mrun Eb; egfin. }
+        mstep Eb. mstep Eb.
+        { mrun Eb. pose proof (cdata_byte_lo _ _ Hc) as Hlo. apply is_eq in C0.
+          match type of C0 with ?x = _ => assert (x < 128)%N by (rewrite C0; lia) end. egfin. }
+        mrun Eb. egfin.
+      - mrun Eb; egfin. }
+  2:{ unfold Gi. egfin. }
+  destruct a0 as [b|]; cbv beta iota in EQ.
+  - destruct Eh as (-> & G2). mstep EQ. split; [exact G2|discriminate].
+  - destruct Eh as (F & L1 & L2 & D3 & (G21 & G22)). mstep EQ. mstep EQ.
+    eapply (loop_in_rule inp _
+              (fun (br : nat) s2 => raw_end s0 <= raw_end s2 /\ raw_end s2 <= length inp /\ Ei inp s2
+                           /\ data_start s2 = raw_end s0 /\ data_start s2 + br <= raw_end s2 /\ brackets inp (raw_end s2) br)
+              (fun _ s2 => length inp - raw_end s2)
+              (fun (r : option bool) s2 => r = Some true /\ Gi inp s2 /\ bnd inp (data_start s2) /\ bnd inp (data_end s2))) in Eh.
+    + destruct Eh as (-> & G3 & B1 & B2). mstep EQ. tauto.
+    + clear Eh EQ. intros br t r t' HI Eb. unfold Ei in *. destruct HI as (M1 & M2 & M3 & M4 & M5 & M6).
+      mstep Eb; mstep Eb; scbn.
+      * mstep Eb. { exfalso. first [specialize (M3 C)|specialize (M3 eq_refl)]. alia. }
+        mstep Eb.
+        { mstep Eb. apply is_eq in C0. subst. scbn. split; [wsplit; auto; try alia; try congruence|alia].
+          intros j Hj. destruct j as [|j]. { replace (S (raw_end t) - 1 - 0) with (raw_end t) by lia. exact Hb. }
+          replace (S (raw_end t) - 1 - S j) with (raw_end t - 1 - j) by lia. apply M6. lia. }
+        mstep Eb.
+        { mstep Eb.
+          - mrun Eb. scbn. unfold Gi. wsplit; scbn; auto; try congruence; try bnds; try (rewrite M4; assumption).
+            all: right; right; left; exists RBRACKET; split; [|reflexivity];
+              replace (S (raw_end t) - 3) with (raw_end t - 1 - 1) by alia; apply M6; alia.
+          - mstep Eb. scbn. split; [wsplit; auto; try alia; try congruence|alia]. intros j Hj. lia. }
+        mstep Eb. scbn. split; [wsplit; auto; try alia; try congruence|alia]. intros j Hj. lia.
+      * mrun Eb. scbn. unfold Gi. wsplit; scbn; auto; try congruence; try bnds; try (rewrite M4; assumption).
+    + scbn. unfold Ei. wsplit; scbn; auto; try alia. intros j Hj. lia.
+    + scbn. alia.
+Qed.
+
+(* ---- B6 ---- *)
+
+Lemma read_markup_declaration_bnd inp s a s' : wf inp s -> Gi inp s -> read_markup_declaration inp s = (a, s') ->
+  Gi inp s' /\ bnd inp (data_start s') /\ bnd inp (data_end s').
+Proof.
+  intros W G EQ. pose proof (wf_end _ _ W). pose proof (wf_start _ _ W). destruct G as [G1 G2].
+  unfold read_markup_declaration in EQ.
+  mstep EQ. mstep EQ; mstep EQ; scbn.
+  2:{ mrun EQ; egfin. }
+  mstep EQ. { mrun EQ; egfin. }
+  mstep EQ; mstep EQ; scbn.
+  2:{ mrun EQ; egfin. }
+  mstep EQ. { mrun EQ; egfin. }
+  mstep EQ.
+  { mstep EQ. apply read_comment_bnd in Eh; [|wfs|scbn; alia|].
+    - mrun EQ. exact Eh.
+    - apply andb_prop in C1. destruct C1 as [Ca Cb]. egfin. }
+  mstep EQ. mstep EQ. lazymatch type of Eh with _ = (?y, ?z) => rename y into isdoc; rename z into t1 end.
+  pose proof Eh as Eh2.
+  apply read_doc_type_spec in Eh; [|wfs|scbn; alia|scbn; alia].
+  apply read_doc_type_bnd in Eh2; [|wfs|scbn; alia|scbn; alia|unfold Ei; scbn; congruence|scbn; assumption|scbn; replace (S (S (raw_end s)) - 2) with (raw_end s) by alia; assumption].
+  destruct Eh as (F1 & L1 & L2 & P1 & Ht & Hf). destruct Eh2 as (Gt1 & Bt1).
+  mstep EQ. { specialize (Bt1 eq_refl). mrun EQ. tauto. }
+  specialize (Hf eq_refl). destruct Hf as (Hf1 & Hf2). pose proof (fr_rs _ _ F1) as Frs. scbn.
+  assert (Wt1 : wf inp t1). { eapply (wf_fr inp _ t1); [|exact F1|scbn; alia|alia]. wfr. }
+  mstep EQ. mstep EQ. lazymatch type of Eh with _ = (?y, ?z) => rename y into iscd; rename z into t2 end.
+  assert (X : Gi inp t2 /\ wf inp t2 /\ (iscd = true -> bnd inp (data_start t2) /\ bnd inp (data_end t2))).
+  { mstep Eh.
+    - pose proof Eh as Eh2. apply read_cdata_spec in Eh; [|exact Wt1|pose proof (wf_start _ _ Wt1); scbn; alia|alia].
+      apply read_cdata_bnd in Eh2; [|exact Wt1|pose proof (wf_start _ _ Wt1); scbn; alia|alia|exact (proj2 Gt1)|rewrite Hf1; scbn; assumption|exact (proj1 Gt1)].
+      destruct Eh as (F2 & M1 & M2 & _). destruct Eh2 as (Gt2 & Bt2). wsplit; auto.
+      eapply (wf_fr inp t1 t2); eauto.
+    - mstep Eh. wsplit; auto; discriminate. }
+  clear Eh. destruct X as (Gt2 & Wt2 & Bt2).
+  mstep EQ. { specialize (Bt2 eq_refl). mrun EQ. unfold Gi in *. scbn. tauto. }
+  mstep EQ. apply read_until_close_angle_bnd in Eh; [|exact Wt2|exact Gt2]. mrun EQ. exact Eh.
+Qed.
+
+Lemma read_tag_name_bnd inp s a s' : wf inp s -> 1 <= raw_end s -> Gi inp s ->
+  (exists c, nth_error inp (raw_end s - 1) = Some c /\ (c < 128)%N) ->
+  read_tag_name inp s = (a, s') ->
+  Gi inp s' /\ bnd inp (data_start s') /\ bnd inp (data_end s').
+Proof.
+  intros W H1 G (c0 & Hc0 & Hc1) EQ. pose proof (wf_end _ _ W). unfold read_tag_name in EQ. mstep EQ. mstep EQ. mstep EQ. mstep EQ.
+  eapply (loop_in_rule inp _
+            (fun _ s2 => raw_end s <= raw_end s2 /\ raw_end s2 <= length inp /\ Ei inp s2 /\ data_start s2 + 1 = raw_end s)
+            (fun _ s2 => length inp - raw_end s2)
+            (fun _ s2 => Gi inp s2 /\ data_start s2 + 1 = raw_end s /\ bnd inp (data_end s2))) in Eh.
+  - destruct Eh as (G2 & D2 & B2). mstep EQ. wsplit; auto.
+    right; right; left. exists c0. split; [|assumption]. replace (data_start s0) with (raw_end s - 1) by alia. assumption.
+  - clear Eh EQ. intros x s2 r s2' HI Eb. unfold Gi, Ei in *. norm. mrun Eb; egfin.
+  - unfold Gi in *. egfin.
+  - scbn. alia.
+Qed.
+
+Lemma read_tag_name_attr_key_bnd inp s a s' : wf inp s -> Gi inp s -> read_tag_name_attr_key inp s = (a, s') ->
+  Gi inp s' /\ bnd inp (fst (fst (pending_attribute s'))) /\ bnd inp (snd (fst (pending_attribute s'))).
+Proof.
+  intros W G EQ. pose proof (wf_end _ _ W). unfold read_tag_name_attr_key in EQ. mstep EQ. mstep EQ.
+  eapply (loop_in_rule inp _
+            (fun _ s2 => raw_end s <= raw_end s2 /\ raw_end s2 <= length inp /\ Ei inp s2
+                         /\ fst (fst (pending_attribute s2)) = raw_end s)
+            (fun _ s2 => length inp - raw_end s2)
+            (fun _ s2 => Gi inp s2 /\ fst (fst (pending_attribute s2)) = raw_end s
+                         /\ bnd inp (snd (fst (pending_attribute s2))))) in Eh.
+  - destruct Eh as (G2 & D2 & B2). mstep EQ. wsplit; auto. rewrite D2. apply G.
+  - clear Eh EQ. intros x s2 r s2' HI Eb. unfold Gi, Ei in *. norm. mrun Eb; egfin.
+  - unfold Gi in *. egfin.
+  - scbn. alia.
+Qed.
+
+(* ---- B7 ---- *)
+
+Ltac absurd_err G :=
+  exfalso; first [ congruence | specialize (G eq_refl); alia | match goal with C : _ = true |- _ => specialize (G C); alia end ].
+
+Ltac gclose := unfold Gi, Ei; scbn; wsplit; auto; try (intros; congruence); try bnds; try alia.
+
+Lemma read_tag_name_attr_value_bnd inp s a s' : wf inp s -> Gi inp s -> read_tag_name_attr_value inp s = (a, s') ->
+  Gi inp s' /\ bnd inp (fst (snd (pending_attribute s'))) /\ bnd inp (snd (snd (pending_attribute s'))).
+Proof.
+  intros W G EQ. pose proof (wf_end _ _ W). pose proof (wf_start _ _ W). destruct G as [G1 G2]. unfold read_tag_name_attr_value in EQ.
+  mstep EQ. mstep EQ. mstep EQ. lazymatch type of Eh with _ = (_, ?z) => rename z into t1 end.
+  pose proof Eh as Eh2.
+  apply skip_white_space_spec in Eh; [|wfs].
+  apply skip_white_space_bnd in Eh2.
+  2:{ wfs. }
+  2:{ unfold Gi, Ei. scbn. split; assumption. }
+  destruct Eh as (F1 & L1 & L2 & (D11 & D12 & D13) & _). destruct Eh2 as [Gt11 Gt12]. scbn.
+  assert (Wt1 : wf inp t1). { eapply (wf_fr inp _ t1); [|exact F1|scbn; alia|alia]. wfs. }
+  mstep EQ. mstep EQ. { mrun EQ. rewrite D13. scbn. unfold Gi. tauto. }
+  mstep EQ; mstep EQ; scbn.
+  2:{ mrun EQ. scbn. rewrite D13. scbn. gclose. }
+  mstep EQ. { mrun EQ. scbn. rewrite D13. scbn. absurd_err Gt12. }
+  mstep EQ.
+  { mrun EQ. scbn. rewrite D13. scbn. gclose. }
+  (* '=' read *)
+  mstep EQ. lazymatch type of Eh with _ = (_, ?z) => rename z into t2 end.
+  pose proof Eh as Eh2.
+  pose proof (wf_start _ _ Wt1) as St1'. pose proof (wf_end _ _ Wt1) as Et1'.
+  apply skip_white_space_spec in Eh; [|wfr]. apply skip_white_space_bnd in Eh2; [|wfr|unfold Gi, Ei; scbn; split; [bnds|congruence]].
+  destruct Eh as (F2 & M1 & M2 & (D21 & D22 & D23) & _). destruct Eh2 as [Gt21 Gt22]. scbn.
+  pose proof (wf_start _ _ Wt1) as St1. pose proof (wf_end _ _ Wt1) as Et1.
+  assert (Wt2 : wf inp t2). { eapply (wf_fr inp _ t2); [|exact F2|scbn; pose proof (wf_start _ _ Wt1); alia|alia]. wfr. }
+  assert (Pt2 : pending_attribute t2 = pending_attribute (set_pa_val_end (raw_end s) (set_pa_val_start (raw_end s) s)))
+    by (rewrite D23; scbn; exact D13).
+  mstep EQ. mstep EQ. { mrun EQ. rewrite Pt2. scbn. unfold Gi. tauto. }
+  mstep EQ; mstep EQ; scbn.
+  2:{ mrun EQ. scbn. rewrite Pt2. scbn. gclose. }
+  mstep EQ. { mrun EQ. scbn. rewrite Pt2. scbn. absurd_err Gt22. }
+  mstep EQ.
+  { mrun EQ. scbn. rewrite Pt2. scbn. gclose. }
+  mstep EQ.
+  - (* quoted *)
+    mstep EQ. mstep EQ.
+    match goal with Eh : loop_in _ _ _ ?st = _ |- _ => set (s9 := st) in * end.
+    eapply (loop_in_rule inp _
+              (fun _ u => raw_end s9 <= raw_end u /\ raw_end u <= length inp /\ Ei inp u
+                          /\ fst (snd (pending_attribute u)) = raw_end s9)
+              (fun _ u => length inp - raw_end u)
+              (fun _ u => Gi inp u /\ fst (snd (pending_attribute u)) = raw_end s9
+                          /\ bnd inp (snd (snd (pending_attribute u))))) in Eh.
+    + destruct Eh as (Gf & Pf & Bf). mstep EQ. wsplit; auto. rewrite Pf. subst s9. scbn. bnds.
+    + clear Eh EQ. intros x u r u' HI Eb. unfold Gi, Ei in *. norm. subst s9. scbn. mrun Eb; egfin.
+      all: match goal with Cq : is ?x ?q = true, Cs : is ?q SQUOTE || is ?q DQUOTE = true |- _ =>
+             assert (x < 128)%N by (apply is_eq in Cq; rewrite Cq; apply orb_prop in Cs; destruct Cs as [Cs|Cs];
+                                    apply is_eq in Cs; rewrite Cs; reflexivity) end; bnds.
+    + subst s9. unfold Ei. scbn. wsplit; auto; try alia. congruence.
+    + subst s9. scbn. alia.
+  - (* unquoted *)
+    mstep EQ. mstep EQ. mstep EQ.
+    match goal with Eh : loop_in _ _ _ ?st = _ |- _ => set (s9 := st) in * end.
+    eapply (loop_in_rule inp _
+              (fun _ u => raw_end s9 <= raw_end u /\ raw_end u <= length inp /\ Ei inp u
+                          /\ fst (snd (pending_attribute u)) + 1 = raw_end s9)
+              (fun _ u => length inp - raw_end u)
+              (fun _ u => Gi inp u /\ fst (snd (pending_attribute u)) + 1 = raw_end s9
+                          /\ bnd inp (snd (snd (pending_attribute u))))) in Eh.
+    + destruct Eh as (Gf & Pf & Bf). mstep EQ. wsplit; auto.
+      replace (fst (snd (pending_attribute s0))) with (raw_end t2) by (subst s9; scbn; alia). assumption.
+    + clear Eh EQ. intros x u r u' HI Eb. unfold Gi, Ei in *. norm. subst s9. scbn. mrun Eb; egfin.
+    + subst s9. unfold Ei. scbn. wsplit; auto; try alia. congruence.
+    + subst s9. scbn. alia.
+Qed.
+
+(* ---- B8 ---- *)
+
+Definition attr_bnd (inp : list N) (a : attr_spans) : Prop :=
+  bnd inp (fst (fst a)) /\ bnd inp (snd (fst a)) /\ bnd inp (fst (snd a)) /\ bnd inp (snd (snd a)).
+
+Lemma Gi_set_err inp t : Gi inp t -> length inp <= raw_end t -> Gi inp (set_err true t).
+Proof. intros [A B] L. split; scbn; auto. Qed.
+
+Lemma read_tag_bnd save inp s a s' : wf inp s -> 1 <= raw_end s -> Gi inp s ->
+  (exists c, nth_error inp (raw_end s - 1) = Some c /\ (c < 128)%N) ->
+  read_tag save inp s = (a, s') ->
+  (wf inp s' /\ fra s s' /\ raw_end s <= raw_end s'
+   /\ data_start s' + 1 = raw_end s /\ data_start s' <= data_end s' /\ data_end s' <= raw_end s')
+  /\ Gi inp s' /\ bnd inp (data_start s') /\ bnd inp (data_end s') /\ Forall (attr_bnd inp) (attribute s').
+Proof.
+  intros W H1 G0 Hc0 EQ. pose proof (wf_end _ _ W). pose proof (wf_start _ _ W). unfold read_tag in EQ.
+  mstep EQ. mstep EQ.
+  set (s1 := set_number_attribute_returned 0 (set_attribute [] s)) in *.
+  assert (W1 : wf inp s1). { destruct W. constructor; subst s1; scbn; auto; alia. }
+  assert (F1 : fra s s1). { constructor; reflexivity. }
+  assert (R1 : raw_end s1 = raw_end s) by reflexivity.
+  assert (A1 : attribute s1 = []) by reflexivity.
+  assert (G1 : Gi inp s1) by exact G0.
+  clearbody s1.
+  mstep EQ. pose proof Eh as Eh2. apply read_tag_name_spec in Eh; [|exact W1|alia]. destruct Eh as (Fa & Pa & La1 & La2 & Da1 & Da2 & Da3).
+  apply read_tag_name_bnd in Eh2; [|exact W1|alia|exact G1|rewrite R1; exact Hc0]. destruct Eh2 as (Ga & Ba1 & Ba2).
+  assert (Wa : wf inp s0) by (pose proof (wf_start _ _ W1); apply (wf_fr inp s1 s0 W1 Fa); alia).
+  mstep EQ. pose proof Eh as Eh2. apply skip_white_space_spec in Eh; [|exact Wa]. destruct Eh as (Fb & Lb1 & Lb2 & (Db1 & Db2 & Db3) & _).
+  apply skip_white_space_bnd in Eh2; [|exact Wa|exact Ga]. rename Eh2 into Gb.
+  assert (A2 : attribute s2 = []) by (destruct Fa, Fb; congruence).
+  assert (Wb : wf inp s2) by (pose proof (wf_start _ _ Wa); apply (wf_fr inp s0 s2 Wa Fb); alia).
+  mstep EQ. mstep EQ.
+  { mstep EQ. split; [split; [exact Wb|]; split; [destruct F1, Fa, Fb; constructor; congruence|wsplit; alia]|].
+    wsplit; auto; try congruence. rewrite A2. constructor. }
+  mstep EQ.
+  eapply (loop_in_rule inp _
+            (fun _ t => wf inp t /\ fra s t /\ raw_end s2 <= raw_end t
+                        /\ data_start t = data_start s2 /\ data_end t = data_end s2
+                        /\ length (attribute t) + raw_end s2 <= raw_end t
+                        /\ Gi inp t /\ Forall (attr_bnd inp) (attribute t))
+            (fun _ t => length inp - raw_end t)
+            (fun _ t => wf inp t /\ fra s t /\ raw_end s2 <= raw_end t
+                        /\ data_start t = data_start s2 /\ data_end t = data_end s2
+                        /\ length (attribute t) + raw_end s2 <= raw_end t
+                        /\ Gi inp t /\ Forall (attr_bnd inp) (attribute t))) in Eh.
+  - destruct Eh as (Wf & Ff & Lf & Df1 & Df2 & Nf & Gf & Af). mstep EQ. wsplit; auto; try alia; congruence.
+  - clear Eh EQ. intros x t r t' (Wt & Ft & Lt & Dt1 & Dt2 & Nt & Gt & At) Eb. destruct Gt as [Gt1 Gt2].
+    pose proof (wf_end _ _ Wt) as Et. pose proof (wf_start _ _ Wt) as St.
+    mstep Eb; mstep Eb; scbn.
+    2:{ mrun Eb. scbn. wsplit; [apply wf_set_err; exact Wt|apply fra_set_err; exact Ft|scbn; try alia..]; auto.
+        apply Gi_set_err; [split; assumption|assumption]. }
+    mstep Eb.
+    { mstep Eb. scbn. wsplit; [apply wf_set_raw_end; [exact Wt|alia|alia]|apply fra_set_raw_end; exact Ft|scbn; try alia..]; auto.
+      apply orb_prop in C0. destruct C0 as [C0|C0].
+      - exfalso. specialize (Gt2 C0). alia.
+      - unfold Gi, Ei. scbn. split; [bnds|]. intros X. specialize (Gt2 X). alia. }
+    apply orb_false_elim in C0. destruct C0 as [Ce Cg].
+    mstep Eb. scbn.
+    set (t0 := set_raw_end (S (raw_end t) - 1) (set_raw_end (S (raw_end t)) t)) in *.
+    assert (Wt0 : wf inp t0). { subst t0. apply wf_set_raw_end; [apply wf_set_raw_end; [exact Wt|alia|alia]|scbn; alia|alia]. }
+    assert (Rt0 : raw_end t0 = raw_end t) by (subst t0; scbn; alia).
+    assert (Ft0 : fra s t0). { subst t0. apply fra_set_raw_end, fra_set_raw_end. exact Ft. }
+    assert (Dt0 : data_start t0 = data_start s2 /\ data_end t0 = data_end s2) by (subst t0; scbn; auto).
+    assert (Et0 : err t0 = false) by (subst t0; scbn; auto).
+    assert (At0 : attribute t0 = attribute t) by (subst t0; reflexivity).
+    assert (Gt0 : Gi inp t0). { subst t0. unfold Gi, Ei. scbn. split; [replace (S (raw_end t) - 1) with (raw_end t) by alia; assumption|congruence]. }
+    clearbody t0.
+    mstep Eb. lazymatch type of Eh with _ = (_, ?y) => rename y into tk end. pose proof (pres_err _ _ _ _ _ pres_read_tag_name_attr_key Eh) as Ek.
+    pose proof Eh as Eh2. apply read_tag_name_attr_key_bnd in Eh2; [|exact Wt0|exact Gt0]. destruct Eh2 as (Gk & Bk1 & Bk2).
+    apply read_tag_name_attr_key_spec in Eh; [|exact Wt0]. destruct Eh as (Fk & (Dk1 & Dk2) & Lk1 & Lk2 & Pk1 & Pk2 & Pk3 & Pk4 & Pk5).
+    assert (Wk : wf inp tk) by (pose proof (wf_start _ _ Wt0); apply (wf_fr inp t0 tk Wt0 Fk); alia).
+    mstep Eb. lazymatch type of Eh with _ = (_, ?y) => rename y into tv end. pose proof (pres_err _ _ _ _ _ pres_read_tag_name_attr_value Eh) as Ev.
+    pose proof Eh as Eh2.
+    apply read_tag_name_attr_value_spec in Eh; [|exact Wk]. destruct Eh as (Fv & (Dv1 & Dv2) & Lv1 & Lv2 & Pv1 & Pv2 & Pv3 & Pv4).
+    assert (Wv : wf inp tv) by (pose proof (wf_start _ _ Wk); apply (wf_fr inp tk tv Wk Fv); alia).
+    apply read_tag_name_attr_value_bnd in Eh2; [|exact Wk|exact Gk]. destruct Eh2 as (Gv & Bv1 & Bv2).
+    mstep Eb. mstep Eb.
+    assert (Atv : attribute tv = attribute t) by (destruct Fk, Fv; congruence).
+    match goal with Eh : _ inp tv = (?u, ?t5) |- _ => rename t5 into tp end.
+    match goal with Eh : _ inp tv = (?u, ?t5) |- _ =>
+      assert (X5 : wf inp t5 /\ fra tv t5 /\ raw_end t5 = raw_end tv /\ err t5 = err tv
+                   /\ data_start t5 = data_start tv /\ data_end t5 = data_end tv
+                   /\ length (attribute t5) + raw_end s2 <= raw_end t5
+                   /\ Gi inp t5 /\ Forall (attr_bnd inp) (attribute t5)) end.
+    { mstep Eh.
+      - apply andb_prop in C0. destruct C0 as [_ Cne]. apply negb_true_iff, Nat.eqb_neq in Cne.
+        rewrite Pv1 in Cne.
+        mstep Eh. scbn. wsplit; auto. 2:{ constructor; reflexivity. }
+        + destruct Wv. constructor; scbn; auto.
+          * apply Forall_app. split; [assumption|].
+            constructor; [|constructor]. unfold attr_ok, span_ok. rewrite Pv1. alia.
+          * rewrite app_length, Atv. cbn [length]. alia.
+        + rewrite app_length, Atv. cbn [length]. alia.
+        + apply Forall_app. split; [rewrite Atv; exact At|]. constructor; [|constructor].
+          unfold attr_bnd. rewrite Pv1. tauto.
+      - mstep Eh. wsplit; auto. constructor; reflexivity. rewrite Atv. alia. rewrite Atv. exact At. }
+    clear Eh. destruct X5 as (W5 & F5 & R5 & E5 & D51 & D52 & N5 & G5 & A5).
+    mstep Eb. lazymatch type of Eh with _ = (_, ?y) => rename y into ts end. pose proof (pres_err _ _ _ _ _ pres_skip_white_space Eh) as Es.
+    pose proof Eh as Eh2. apply skip_white_space_spec in Eh; [|exact W5]. destruct Eh as (Fs & Ls1 & Ls2 & (Ds1 & Ds2 & Ds3) & _).
+    apply skip_white_space_bnd in Eh2; [|exact W5|exact G5]. rename Eh2 into Gs.
+    assert (Ws : wf inp ts) by (pose proof (wf_start _ _ W5); match type of Fs with fr ?x _ => apply (wf_fr inp x ts W5 Fs) end; alia).
+    assert (Ats : attribute ts = attribute tp) by (destruct Fs; assumption).
+    assert (Ffin : fra s ts).
+    { destruct Ft0, Fk, Fv, F5, Fs. constructor; congruence. }
+    mstep Eb. mstep Eb; mstep Eb.
+    + wsplit; auto; try alia; rewrite Ats; first [alia|exact A5].
+    + split; [wsplit; auto; try alia; rewrite Ats; first [alia|exact A5]|].
+      (* progress *)
+      assert (E4 : err tv = false) by (rewrite <- E5; apply Es; first [exact C0|reflexivity]).
+      assert (E3 : err tk = false) by (apply Ev; exact E4).
+      destruct (Pk5 E3) as [Hp|(Hp & Hc)].
+      * lia.
+      * assert (Hq : nth_error inp (raw_end tk) = Some EQUALS).
+        { rewrite Hp. destruct Hc as [Hc|Hc]; [exact Hc|]. rewrite Rt0, Hb in Hc. injection Hc as ->. discriminate Cg. }
+        specialize (Pv4 Hq E4). lia.
+  - wsplit; auto; try alia. destruct F1, Fa, Fb. constructor; congruence.
+    rewrite A2. cbn [length]. alia. rewrite A2. constructor.
+  - alia.
+Qed.
+
+(* ---- B9 ---- *)
+
+Lemma ascii_utf8_valid l : Forall (fun c => (c < 128)%N) l -> utf8_valid l = true.
+Proof.
+  induction 1 as [|c l Hc Hl IH]. reflexivity.
+  rewrite utf8_valid_unfold. apply N.ltb_lt in Hc. rewrite Hc. exact IH.
+Qed.
+Lemma lower_le c : (ascii_lower c <= 122)%N -> (c < 128)%N.
+Proof.
+  unfold ascii_lower. destruct (N.leb 65 c && N.leb c 90) eqn:E; intros H.
+  - apply andb_prop in E. destruct E as [_ E]. apply N.leb_le in E. lia.
+  - lia.
+Qed.
+Lemma raw_name_ascii l : In (map ascii_lower l) raw_text_elements -> utf8_valid l = true.
+Proof.
+  intros H. apply ascii_utf8_valid.
+  assert (B : forallb (fun t => forallb (fun c => N.leb c 122) t) raw_text_elements = true) by reflexivity.
+  rewrite forallb_forall in B. specialize (B _ H). rewrite forallb_forall in B.
+  apply Forall_forall. intros c Hc. apply lower_le. apply N.leb_le. apply B. apply in_map. exact Hc.
+Qed.
+
+Lemma read_start_tag_bnd lower inp s r s' : lower_ok lower -> wf inp s -> raw_start s + 2 <= raw_end s -> Gi inp s ->
+  (exists c, nth_error inp (raw_end s - 1) = Some c /\ (c < 128)%N) ->
+  read_start_tag lower inp s = (r, s') ->
+  Gi inp s' /\ bnd inp (data_start s') /\ bnd inp (data_end s') /\ Forall (attr_bnd inp) (attribute s') /\ r <> RErr.
+Proof.
+  intros LO W H2 G Hc EQ. pose proof (wf_end _ _ W). unfold read_start_tag in EQ.
+  mstep EQ. lazymatch type of Eh with _ = (_, ?y) => rename y into t1 end.
+  apply read_tag_bnd in Eh; [|exact W|alia|exact G|exact Hc].
+  destruct Eh as ((W1 & F1 & L1 & D1 & D2 & D3) & G1 & B1 & B2 & A1).
+  pose proof (wf_end _ _ W1) as E1. pose proof (wf_start _ _ W1) as S1. destruct F1 as [Frs Ftag Fcd Fp Fo].
+  mstep EQ. mstep EQ.
+  { mstep EQ. wsplit; auto. discriminate. }
+  mstep EQ. mstep EQ. lazymatch type of Eh with _ = (?y, _) => rename y into b1 end.
+  assert (Hs0 : s0 = t1).
+  { mstep Eh. rewrite add_u8_ok in Eh by (apply upper_add; assumption). apply pair_equal_spec in Eh. destruct Eh; auto.
+    mstep Eh. reflexivity. }
+  clear Eh. subst s0.
+  mstep EQ. lazymatch type of Eh with _ = (?y, ?z) => rename y into israw; rename z into t2 end.
+  assert (Hraw : t2 = t1 /\ (israw = true -> In (map ascii_lower (sub inp (data_start t1) (data_end t1))) raw_text_elements)).
+  { repeat (mstep Eh);
+      try (apply start_tag_in_spec in Eh; [|exact W1|alia|alia]; destruct Eh as [-> Hin]; split; [reflexivity|];
+           intros Ht; specialize (Hin Ht); cbn in Hin |- *; tauto).
+    split; [reflexivity|discriminate]. }
+  clear Eh. destruct Hraw as [-> Hraw].
+  mstep EQ. lazymatch type of Eh with _ = (?y, ?z) => rename y into ok; rename z into t3 end.
+  assert (H3 : ok = true /\ Gi inp t3 /\ data_start t3 = data_start t1 /\ data_end t3 = data_end t1
+               /\ attribute t3 = attribute t1 /\ raw_end t3 = raw_end t1 /\ err t3 = err t1).
+  { mstep Eh.
+    - specialize (Hraw eq_refl). mstep Eh. mstep Eh.
+      + mstep Eh. mstep Eh. wsplit; try reflexivity. exact G1.
+      + exfalso. unfold sub in Hraw. match goal with Cu : utf8_valid _ = false |- _ => rewrite (raw_name_ascii _ Hraw) in Cu; discriminate Cu end.
+    - mstep Eh. wsplit; auto. }
+  clear Eh. destruct H3 as (-> & G3 & D31 & D32 & A3 & R3 & Er3).
+  cbn [negb] in EQ. cbv beta iota in EQ.
+  assert (Post : forall rr : result token_type, rr <> RErr -> Gi inp t3 /\ bnd inp (data_start t3) /\ bnd inp (data_end t3)
+                   /\ Forall (attr_bnd inp) (attribute t3) /\ rr <> RErr).
+  { intros rr Hr. wsplit; auto; congruence. }
+  mrun EQ; apply Post; discriminate.
+Qed.
+
+(* ---- B10 ---- *)
+
+Definition bpost (inp : list N) (r : result token_type) (s' : st) : Prop :=
+  Gi inp s' /\ bnd inp (data_start s') /\ bnd inp (data_end s') /\ Forall (attr_bnd inp) (attribute s') /\ r <> RErr.
+
+Ltac bp := unfold bpost, Gi, Ei in *; scbn; wsplit; auto; try congruence; try discriminate; try bnds; try (intros; congruence); try alia.
+
+Lemma next_bnd lower inp s r s' : lower_ok lower -> wf0 inp s -> Gi inp s -> Forall (attr_bnd inp) (attribute s) ->
+  next lower inp s = (r, s') -> bpost inp r s'.
+Proof.
+  intros LO (W1 & W2 & W3 & W4 & W5 & W6) (Gs1 & Gs2) As EQ. unfold next in EQ.
+  mstep EQ. mstep EQ. mstep EQ. scbn.
+  set (p := raw_end s) in *.
+  set (s0 := set_data_end p (set_data_start p (set_raw_start p s))) in *.
+  assert (W0 : wf inp s0) by (constructor; subst s0 p; scbn; auto; alia).
+  assert (R0 : raw_start s0 = p /\ raw_end s0 = p /\ data_start s0 = p /\ data_end s0 = p /\ attribute s0 = attribute s /\ err s0 = err s)
+    by (subst s0; scbn; wsplit; reflexivity).
+  destruct R0 as (R01 & R02 & R03 & R04 & R05 & R06).
+  clearbody s0.
+  mstep EQ. mstep EQ.
+  { mrun EQ. bp; rewrite ?R02, ?R03, ?R04, ?R05; auto. all: try (rewrite R06 in *; auto). }
+  assert (E0 : Ei inp s0) by (unfold Ei; congruence).
+  mstep EQ. lazymatch type of Eh with _ = (?y, ?z) => rename y into returned; rename z into t1 end.
+  assert (H1 : (returned = true /\ Gi inp t1 /\ data_start t1 = p /\ data_end t1 = raw_end t1 /\ attribute t1 = attribute s)
+               \/ (returned = false /\ wf inp t1 /\ raw_start t1 = p /\ p <= raw_end t1
+                   /\ data_start t1 = p /\ data_end t1 = p /\ Ei inp t1 /\ attribute t1 = attribute s)).
+  { mstep Eh.
+    2:{ mstep Eh. right. wsplit; auto; alia. }
+    mstep Eh. lazymatch type of Eh0 with _ = (_, ?z) => rename z into t2 end.
+    assert (H2 : wf inp t2 /\ raw_start t2 = p /\ data_start t2 = p /\ data_end t2 = raw_end t2 /\ Gi inp t2 /\ attribute t2 = attribute s).
+    { mstep Eh0.
+      - mstep Eh0.
+        eapply (loop_in_rule inp _
+                  (fun _ t => wf inp t /\ raw_start t = p /\ data_start t = p /\ Ei inp t /\ attribute t = attribute s)
+                  (fun _ t => (length inp - raw_end t) + (if err t then 0 else 1))
+                  (fun _ t => wf inp t /\ raw_start t = p /\ data_start t = p /\ Gi inp t /\ attribute t = attribute s)) in Eh1.
+        + destruct Eh1 as (Wl & Rl & Dl & Gl & Al). cbv zeta in Eh0. mstep Eh0. mstep Eh0. wsplit; scbn; auto with wfdb.
+        + clear Eh1. intros x t rr t' (Wt & Rt & Dt & Et & At) Eb. pose proof (wf_end _ _ Wt). pose proof (wf_start _ _ Wt).
+          unfold Ei in *. mstep Eb. mstep Eb.
+          * match goal with Hc : err t = false |- _ => rename Hc into Cerr end.
+            mstep Eb; mstep Eb; scbn; rewrite ?Cerr.
+            -- split; [wsplit; auto; try (apply wf_set_raw_end; auto; alia); congruence|]. alia.
+            -- split; [wsplit; auto with wfdb|]. alia.
+          * mstep Eb. wsplit; auto. unfold Gi, Ei. split; [right; left; auto|auto].
+        + wsplit; auto; congruence.
+        + destruct (err s0); alia.
+      - pose proof Eh0 as Eh2. apply read_raw_or_cdata_spec in Eh0; [|exact W0]. destruct Eh0 as (Wr & Rr & Cr & Dr1 & Dr2 & Ar).
+        apply read_raw_or_cdata_bnd in Eh2; [|exact W0|exact E0].
+        wsplit; auto; congruence. }
+    clear Eh0. destruct H2 as (Wt2 & Rt2 & Dt21 & Dt22 & Gt2 & At2). pose proof (wf_end _ _ Wt2). pose proof (wf_start _ _ Wt2).
+    mstep Eh. mstep Eh.
+    - mstep Eh. mstep Eh. mstep Eh. left. wsplit; scbn; auto.
+    - mstep Eh. right. wsplit; auto; try alia. exact (proj2 Gt2). }
+  clear Eh. destruct H1 as [(-> & Gt1 & Dt11 & Dt12 & At1) | (-> & Wt1 & Rt1 & Lt1 & Dt11 & Dt12 & Et1 & At1)].
+  { mstep EQ. destruct Gt1 as [Gt11 Gt12]. bp; rewrite ?Dt11, ?Dt12, ?At1; auto. }
+  cbv beta iota in EQ. mstep EQ. mstep EQ. scbn.
+  set (t3 := set_convert_null false (set_text_is_raw false t1)) in *.
+  assert (Wt3 : wf inp t3) by (subst t3; auto with wfdb).
+  assert (Rt3 : raw_start t3 = p /\ raw_end t3 = raw_end t1 /\ data_start t3 = p /\ data_end t3 = p /\ attribute t3 = attribute s /\ Ei inp t3)
+    by (subst t3; unfold Ei in *; scbn; wsplit; auto).
+  destruct Rt3 as (Rt31 & Rt32 & Rt33 & Rt34 & Rt35 & Rt36). clearbody t3.
+  mstep EQ. lazymatch type of Eh with _ = (?y, ?z) => rename y into lres; rename z into tl end.
+  eapply (loop_in_rule inp _
+            (fun _ t => wf inp t /\ raw_start t = p /\ data_start t = p /\ data_end t = p /\ Ei inp t /\ attribute t = attribute s)
+            (fun _ t => length inp - raw_end t)
+            (fun (res : option (result token_type)) t =>
+               match res with
+               | Some r => bpost inp r t
+               | None => raw_start t = p /\ data_start t = p /\ data_end t = p /\ Gi inp t /\ attribute t = attribute s
+               end)) in Eh.
+  - destruct lres as [res|]; cbv beta iota in EQ, Eh.
+    + mstep EQ. exact Eh.
+    + destruct Eh as (Rf & Df1 & Df2 & (Gf1 & Gf2) & Af).
+      mstep EQ. mstep EQ.
+      * mrun EQ. bp; rewrite ?Df1, ?Af; auto.
+      * mrun EQ. bp; rewrite ?Df1, ?Df2, ?Af; auto.
+  - clear Eh EQ. intros x t rr t' (Wt & Rt & Dt1 & Dt2 & Et & At) Eb.
+    pose proof (wf_end _ _ Wt) as Ent. pose proof (wf_start _ _ Wt) as St. unfold Ei in Et.
+    mstep Eb; mstep Eb; scbn.
+    2:{ mrun Eb. bp. }
+    mstep Eb. { mrun Eb. exfalso. first [specialize (Et C)|specialize (Et eq_refl)]. alia. }
+    mstep Eb. { mrun Eb. scbn. split; [wsplit; auto; try wfr; unfold Ei; scbn; congruence|alia]. }
+    mstep Eb; mstep Eb; scbn.
+    2:{ mrun Eb. bp. }
+    mstep Eb. { mrun Eb. exfalso. congruence. }
+    cbv zeta in Eb.
+    set (t4 := set_raw_end (S (S (raw_end t))) (set_raw_end (S (raw_end t)) t)) in *.
+    assert (Wt4 : wf inp t4) by (subst t4; wfr).
+    assert (Rt4 : raw_start t4 = p /\ raw_end t4 = S (S (raw_end t)) /\ data_start t4 = p /\ data_end t4 = p
+                  /\ attribute t4 = attribute s /\ err t4 = false)
+      by (subst t4; scbn; wsplit; auto).
+    destruct Rt4 as (Rt41 & Rt42 & Rt43 & Rt44 & Rt45 & Rt46). clearbody t4.
+    match type of Eb with (match ?c with _ => _ end) _ _ = _ => destruct c as [tt0|] eqn:Ctt end.
+    2:{ (* not a tag: un-read *) mstep Eb. mstep Eb. scbn.
+        split; [wsplit; scbn; auto; try alia; try wfr; unfold Ei; scbn; congruence|alia]. }
+    mstep Eb. mstep Eb.
+    { (* text before the tag: ends at the '<' *) mrun Eb. bp; rewrite ?Rt43, ?Rt45; auto. }
+    assert (Gt4 : forall c1, nth_error inp (S (raw_end t)) = Some c1 -> (c1 < 128)%N -> Gi inp t4).
+    { intros c1 Hq1 Hq2. unfold Gi, Ei. rewrite Rt42, Rt46. split; [|discriminate].
+      right; right; right. exists c1. split; [replace (S (S (raw_end t)) - 1) with (S (raw_end t)) by alia; exact Hq1|split; [exact Hq2|alia]]. }
+    destruct tt0; try (mstep Eb; exfalso; revert Ctt; repeat match goal with |- context [if ?c then _ else _] => destruct c end; discriminate).
+    + (* StartTagToken: the second byte is a letter *)
+      assert (Hal : exists c, nth_error inp (raw_end t4 - 1) = Some c /\ (c < 128)%N).
+      { match goal with Hq : nth_error inp (S (raw_end t)) = Some ?x |- _ => exists x; split; [replace (raw_end t4 - 1) with (S (raw_end t)) by alia; exact Hq|] end.
+        revert Ctt. destruct (is_ascii_alphabetic _) eqn:Eal; [intros _; apply alpha_lt128; exact Eal|].
+        repeat match goal with |- context [if ?c then _ else _] => destruct c end; discriminate. }
+      destruct Hal as (cq & Hq1 & Hq2).
+      mstep Eb. lazymatch type of Eh with _ = (?y, ?z) => rename y into rs; rename z into ts end.
+      apply read_start_tag_bnd in Eh; [|exact LO|exact Wt4|alia| |exists cq; auto].
+      2:{ apply (Gt4 cq); auto. replace (S (raw_end t)) with (raw_end t4 - 1) by alia. exact Hq1. }
+      destruct Eh as (Gs & B1 & B2 & A1 & Hne).
+      destruct rs as [tk1|]; [|congruence].
+      mstep Eb. mstep Eb. bp. all: apply Gs.
+    + (* EndTagToken: the second byte is '/' *)
+      assert (Hsl : Gi inp t4).
+      { match goal with Hq : nth_error inp (S (raw_end t)) = Some ?x |- _ => apply (Gt4 x Hq) end.
+        revert Ctt. destruct (is_ascii_alphabetic _); [discriminate|]. destruct (is _ SLASH) eqn:Es; [intros _; eapply is_lt128; [exact Es|reflexivity]|].
+        repeat match goal with |- context [if ?c then _ else _] => destruct c end; discriminate. }
+      destruct Hsl as [Hs1 Hs2].
+      mstep Eb; mstep Eb; scbn.
+      2:{ mrun Eb. bp. }
+      mstep Eb. { mrun Eb. exfalso. congruence. }
+      mstep Eb. { mrun Eb. bp; rewrite ?Rt43, ?Rt44, ?Rt45; auto. }
+      mstep Eb.
+      * mstep Eb. lazymatch type of Eh with _ = (_, ?z) => rename z into tg end.
+        apply read_tag_bnd in Eh; [|wfr|scbn; alia| |].
+        2:{ unfold Gi, Ei. scbn. split; [bnds|congruence]. }
+        2:{ scbn. match goal with Hq : nth_error inp (raw_end t4) = Some ?x |- _ => exists x; split;
+              [replace (S (raw_end t4) - 1) with (raw_end t4) by alia; exact Hq|ascii] end. }
+        destruct Eh as (_ & Gg & Bg1 & Bg2 & Ag).
+        mstep Eb. mstep Eb. mstep Eh; mstep Eh; mstep Eb; mstep Eb; bp; apply Gg.
+      * mstep Eb. mstep Eb. lazymatch type of Eh with _ = (_, ?z) => rename z into tu end.
+        pose proof Eh as Eh2. apply read_until_close_angle_spec in Eh; [|wfr].
+        apply read_until_close_angle_bnd in Eh2; [|wfr|].
+        2:{ unfold Gi, Ei. scbn. split; [replace (S (raw_end t4) - 1) with (raw_end t4) by alia; assumption|congruence]. }
+        destruct Eh as (Fr & _). destruct Eh2 as (Gu & Bu1 & Bu2). pose proof (fr_attr _ _ Fr) as Fa. scbn.
+        mrun Eb. bp; rewrite ?Fa, ?Rt45; auto; apply Gu.
+    + (* CommentToken: the second byte is '!' or '?' *)
+      assert (Hc2 : exists c1, nth_error inp (S (raw_end t)) = Some c1 /\ (c1 < 128)%N).
+      { match goal with Hq : nth_error inp (S (raw_end t)) = Some ?x |- _ => exists x; split; [exact Hq|] end.
+        revert Ctt. destruct (is_ascii_alphabetic _); [discriminate|]. destruct (is _ SLASH); [discriminate|].
+        destruct (is _ BANG || is _ QMARK) eqn:Eb2; [intros _|discriminate].
+        apply orb_prop in Eb2. destruct Eb2 as [Eb2|Eb2]; eapply is_lt128; try exact Eb2; reflexivity. }
+      destruct Hc2 as (c2 & Hc21 & Hc22).
+      pose proof (Gt4 c2 Hc21 Hc22) as Hsl.
+      mstep Eb.
+      * mstep Eb. lazymatch type of Eh with _ = (_, ?z) => rename z into tu end.
+        pose proof Eh as Eh2. apply read_markup_declaration_spec in Eh; [|exact Wt4].
+        apply read_markup_declaration_bnd in Eh2; [|exact Wt4|exact Hsl].
+        destruct Eh as (Fr & _). destruct Eh2 as (Gu & Bu1 & Bu2). pose proof (fr_attr _ _ Fr) as Fa.
+        mrun Eb. bp; rewrite ?Fa, ?Rt45; auto; apply Gu.
+      * mstep Eb. mstep Eb. lazymatch type of Eh with _ = (_, ?z) => rename z into tu end.
+        pose proof Eh as Eh2. apply read_until_close_angle_spec in Eh; [|wfr].
+        apply read_until_close_angle_bnd in Eh2; [|wfr|].
+        2:{ unfold Gi, Ei. scbn. split; [|congruence]. right; right; left.
+            exists c2. split; [replace (raw_end t4 - 1) with (S (raw_end t)) by alia; exact Hc21|exact Hc22]. }
+        destruct Eh as (Fr & _). destruct Eh2 as (Gu & Bu1 & Bu2). pose proof (fr_attr _ _ Fr) as Fa. scbn.
+        mrun Eb. bp; rewrite ?Fa, ?Rt45; auto; apply Gu.
+  - wsplit; auto; alia.
+  - alia.
+Qed.
+
+(* ---- B11 ---- *)
+
+(* ---- the accessors do not touch err ---- *)
+Definition errsame (s s' : st) : Prop := err s' = err s.
+Lemma errsame_refl s : errsame s s. Proof. reflexivity. Qed.
+Lemma errsame_trans a b c : errsame a b -> errsame b c -> errsame a c. Proof. unfold errsame. congruence. Qed.
+Lemma errsame_oof s : errsame s (set_oof true s). Proof. reflexivity. Qed.
+Lemma errsame_panic site s : errsame s (set_panic_site site s).
+Proof. unfold set_panic_site, errsame. destruct (panic s); reflexivity. Qed.
+Ltac es_step :=
+  first
+    [ apply (presR_ret errsame errsame_refl) | apply (presR_get errsame errsame_refl)
+    | assumption
+    | apply (presR_upd errsame); solve [intros; reflexivity | intros; apply errsame_panic]
+    | apply (presR_loop_in errsame errsame_refl errsame_trans errsame_oof); intros
+    | apply (presR_bind errsame errsame_trans); [| intros ]
+    | match goal with
+      | |- PresR errsame (if ?c then _ else _) => destruct c
+      | |- PresR errsame (match ?c with _ => _ end) => destruct c
+      end ].
+Lemma es_slice site a b : PresR errsame (slice site a b).
+Proof. intros inp s. unfold slice. cbn. destruct ((a <=? b) && (b <=? length inp)). reflexivity. apply errsame_panic. Qed.
+Lemma es_index_attr site l i : PresR errsame (index_attr site l i).
+Proof. unfold index_attr. destruct (nth_error l i); unfold fail_at; repeat es_step. Qed.
+Lemma es_text : PresR errsame text.
+Proof. unfold text. repeat first [apply es_slice | es_step]. Qed.
+Lemma es_tag_name lower : PresR errsame (tag_name lower).
+Proof. unfold tag_name. repeat first [apply es_slice | es_step]. Qed.
+Lemma es_tag_attr lower : PresR errsame (tag_attr lower).
+Proof. unfold tag_attr. repeat first [apply es_slice | apply es_index_attr | es_step]. Qed.
+Lemma es_observe lower ty : PresR errsame (observe lower ty).
+Proof. unfold observe, raw. repeat first [apply es_slice | apply es_text | apply es_tag_name | apply es_tag_attr | es_step]. Qed.
+
+(* ---- on valid UTF-8 the accessors succeed ---- *)
+Definition data_bnd (inp : list N) (s : st) : Prop := bnd inp (data_start s) /\ bnd inp (data_end s).
+
+Lemma text_no_err inp s a s' : utf8_valid inp = true -> wf inp s -> data_ok inp s -> data_bnd inp s ->
+  text inp s = (a, s') -> a <> RErr.
+Proof.
+  intros U W (D1 & D2) (B1 & B2) EQ. unfold text in EQ. mstep EQ.
+  destruct (token s); try (mstep EQ; discriminate).
+  all: mstep EQ; mstep EQ;
+    [ exfalso; try apply negb_true_iff in C; pose proof (utf8_valid_sub inp _ _ U B1 B2 D1) as V; unfold sub in V; rewrite V in C; discriminate C
+    | mrun EQ; discriminate ].
+Qed.
+Lemma tag_name_no_err lower inp s a s' : utf8_valid inp = true -> wf inp s -> data_ok inp s -> data_bnd inp s ->
+  tag_name lower inp s = (a, s') -> a <> RErr.
+Proof.
+  intros U W (D1 & D2) (B1 & B2) EQ. unfold tag_name in EQ. mstep EQ. mstep EQ.
+  2:{ mstep EQ. discriminate. }
+  destruct (token s); try (mstep EQ; discriminate).
+  all: mstep EQ; mstep EQ;
+    [ exfalso; try apply negb_true_iff in C0; pose proof (utf8_valid_sub inp _ _ U B1 B2 D1) as V; unfold sub in V; rewrite V in C0; discriminate C0
+    | mrun EQ; discriminate ].
+Qed.
+Lemma tag_attr_no_err lower inp s a s' : utf8_valid inp = true -> wf inp s -> Forall (attr_bnd inp) (attribute s) ->
+  tag_attr lower inp s = (a, s') -> a <> RErr.
+Proof.
+  intros U W AB EQ. unfold tag_attr in EQ. mstep EQ. mstep EQ.
+  2:{ mstep EQ. discriminate. }
+  destruct (token s); try (mstep EQ; discriminate).
+  all: mstep EQ;
+    destruct (index_attr_ok 54 (attribute s) (number_attribute_returned s) inp s C) as (at_ & Hat & Eat);
+    rewrite Eat in Eh; apply pair_equal_spec in Eh; destruct Eh as [<- <-];
+    pose proof (wf_attrs _ _ W) as Fa; rewrite Forall_forall in Fa; destruct (Fa _ (nth_error_In _ _ Hat)) as ((K1 & K2) & (V1 & V2));
+    rewrite Forall_forall in AB; destruct (AB _ (nth_error_In _ _ Hat)) as (Bk1 & Bk2 & Bv1 & Bv2);
+    mstep EQ; mstep EQ; mstep EQ;
+    [ exfalso; try apply negb_true_iff in C0; pose proof (utf8_valid_sub inp _ _ U Bk1 Bk2 K1) as V; unfold sub in V; rewrite V in C0; discriminate C0 | ];
+    mstep EQ; mstep EQ;
+    [ exfalso; try apply negb_true_iff in C1; pose proof (utf8_valid_sub inp _ _ U Bv1 Bv2 V1) as V; unfold sub in V; rewrite V in C1; discriminate C1 | ];
+    mrun EQ; discriminate.
+Qed.
+
+Lemma slice_frame site a b inp s x s0 : slice site a b inp s = (x, s0) ->
+  data_start s0 = data_start s /\ data_end s0 = data_end s /\ raw_end s0 = raw_end s.
+Proof.
+  unfold slice. intros E. apply pair_equal_spec in E. destruct E as [_ <-].
+  destruct ((a <=? b) && (b <=? length inp)); [auto|]. unfold set_panic_site. destruct (panic s); auto.
+Qed.
+
+Lemma text_data inp s a s' : text inp s = (a, s') ->
+  (data_start s' = data_start s /\ data_end s' = data_end s) \/ (data_start s' = raw_end s /\ data_end s' = raw_end s).
+Proof.
+  intros EQ. unfold text in EQ. mstep EQ.
+  destruct (token s); try solve [mstep EQ; left; auto].
+  all: mstep EQ; apply slice_frame in Eh; destruct Eh as (X1 & X2 & X3); mstep EQ;
+    [mstep EQ; left; auto|]; mrun EQ; right; scbn; auto.
+Qed.
+
+Definition no_error_obs (t : tok_obs) : Prop :=
+  utf8_valid (o_raw t) = true /\ o_text t <> RErr /\ o_name t <> RErr /\ Forall (fun a => a <> RErr) (o_attrs t).
+
+Lemma observe_acc lower ty inp s o s' : utf8_valid inp = true -> wf inp s -> data_ok inp s -> data_bnd inp s ->
+  bnd inp (raw_start s) -> bnd inp (raw_end s) -> Forall (attr_bnd inp) (attribute s) ->
+  observe lower ty inp s = (o, s') ->
+  no_error_obs o /\ wf inp s' /\ raw_end s' = raw_end s /\ attribute s' = attribute s /\ err s' = err s.
+Proof.
+  intros U W D DB Brs Bre AB EQ. pose proof (es_observe lower ty inp s) as Es. rewrite EQ in Es. cbn [snd] in Es.
+  unfold observe in EQ. mstep EQ. mstep EQ. rewrite (raw_ok _ _ W) in Eh. apply pair_equal_spec in Eh. destruct Eh as [<- <-].
+  mstep EQ. lazymatch type of Eh with _ = (?y, ?z) => rename y into tx; rename z into t1 end.
+  pose proof (text_no_err _ _ _ _ U W D DB Eh) as Ntx. pose proof (text_data _ _ _ _ Eh) as Dtx.
+  apply text_spec in Eh; auto. destruct Eh as (W1 & R11 & R12 & D1 & _ & A1 & _).
+  assert (DB1 : data_bnd inp t1).
+  { destruct DB as [DBa DBb]. destruct Dtx as [[X Y]|[X Y]]; split; rewrite ?X, ?Y; assumption. }
+  mstep EQ. lazymatch type of Eh with _ = (?y, ?z) => rename y into nm; rename z into t2 end.
+  pose proof (tag_name_no_err _ _ _ _ _ U W1 D1 DB1 Eh) as Nnm.
+  apply tag_name_spec in Eh; auto. destruct Eh as (W2 & R21 & R22 & D2 & _ & A2 & _).
+  mstep EQ. lazymatch type of Eh with _ = (?y, ?z) => rename y into ats; rename z into t3 end.
+  eapply (loop_in_rule inp _
+            (fun acc t => wf inp t /\ raw_end t = raw_end s /\ data_ok inp t /\ attribute t = attribute s
+                          /\ Forall (fun a => a <> RErr) acc)
+            (fun _ t => length (attribute s) - number_attribute_returned t)
+            (fun (res : option (list attr_res)) t => wf inp t /\ raw_end t = raw_end s /\ attribute t = attribute s
+                          /\ match res with Some l => Forall (fun a => a <> RErr) l | None => True end)) in Eh.
+  - destruct Eh as (W3 & R3 & A3 & F3). mstep EQ. split.
+    + unfold no_error_obs. cbn [o_raw o_text o_name o_attrs]. wsplit; auto.
+      * destruct W. apply utf8_valid_sub; auto.
+      * destruct ats; [exact F3|constructor].
+    + wsplit; auto.
+  - clear Eh EQ. intros acc t r t' (Wt & Rt & Dt & At & Ft) Eb.
+    mstep Eb. lazymatch type of Eh with _ = (?y, ?z) => rename y into av; rename z into t4 end.
+    assert (Nav : av <> RErr). { eapply tag_attr_no_err; eauto. rewrite At. exact AB. }
+    apply tag_attr_spec in Eh; auto. destruct Eh as ((W4 & R41 & R42 & D4 & _ & A4 & _) & Hprog).
+    mstep Eb.
+    + mstep Eb. wsplit; auto; try congruence. apply Forall_rev. constructor; assumption.
+    + mstep Eb. split; [wsplit; auto; try congruence; constructor; assumption|].
+      destruct Hprog as [->|[Hp1 Hp2]]; [discriminate C|]. rewrite At in Hp2. alia.
+  - wsplit; auto; try congruence.
+  - pose proof (wf_nattr _ _ W). alia.
+Qed.
+
+Lemma tok_loop_acc lower inp : lower_ok lower -> utf8_valid inp = true -> forall fuel acc s r s',
+  wf0 inp s -> Gi inp s -> Forall (attr_bnd inp) (attribute s) -> Forall no_error_obs acc ->
+  tok_loop lower fuel acc inp s = (r, s') ->
+  Forall no_error_obs (fst r) /\ snd r <> 1%N.
+Proof.
+  intros LO U. induction fuel as [|f IH]; intros acc s r s' W0 G AB FA EQ; cbn [tok_loop] in EQ.
+  - mstep EQ. mstep EQ. scbn. split; [apply Forall_rev; exact FA|discriminate].
+  - mstep EQ. lazymatch type of Eh with _ = (?y, ?z) => rename y into r1; rename z into t1 end.
+    pose proof Eh as Eh2.
+    apply (next_spec lower inp s r1 t1 LO W0) in Eh. destruct Eh as (W1 & R1 & D11 & D12 & Tk & Pg).
+    apply (next_bnd lower inp s r1 t1 LO W0 G AB) in Eh2. destruct Eh2 as (G1 & B11 & B12 & A1 & Ne).
+    mstep EQ. rewrite (wf_panic _ _ W1), (wf_oof _ _ W1) in EQ. cbn [is_some orb] in EQ.
+    destruct r1 as [ty|]; [|congruence].
+    destruct (token_eqb ty ErrorToken) eqn:Ety.
+    { mstep EQ. scbn. split; [apply Forall_rev; exact FA|discriminate]. }
+    mstep EQ. lazymatch type of Eh with _ = (?y, ?z) => rename y into o; rename z into t2 end.
+    apply observe_acc in Eh; auto; try (split; assumption).
+    2:{ rewrite R1. apply G. }
+    2:{ apply G1. }
+    destruct Eh as (No & W2 & R2 & A2 & E2).
+    apply IH in EQ; auto.
+    + apply wf0_of; exact W2.
+    + destruct G1 as [G1a G1b]. unfold Gi, Ei. rewrite R2, E2. split; assumption.
+    + rewrite A2. exact A1.
+Qed.
+
+Lemma new_fragment_Gi lower ctx inp : Gi inp (new_fragment lower ctx) /\ Forall (attr_bnd inp) (attribute (new_fragment lower ctx)).
+Proof.
+  unfold new_fragment, Gi, Ei. destruct (negb (is_nil ctx)); [destruct (mem_str (lower ctx) raw_text_elements)|];
+    cbn; (split; [split; [left; reflexivity|discriminate]|constructor]).
+Qed.
+
+(* T4: on valid UTF-8 no accessor fails and next never returns Err *)
+Lemma accessors : forall (lower : str -> str) (ctx : str) (fuel : nat) (b : str) toks fin,
+  lower_ok lower -> utf8_valid b = true -> tokenize_all lower ctx fuel b = Ok (toks, fin) ->
+  Forall no_error_obs toks /\ f_end fin <> 1%N.
+Proof.
+  intros lower ctx fuel b toks fin LO U H. unfold tokenize_all, run_outcome in H.
+  match type of H with context [?m b (new_fragment lower ctx)] => destruct (m b (new_fragment lower ctx)) as [res sf] eqn:EQ end.
+  mstep EQ. lazymatch type of Eh with _ = (?y, ?z) => rename y into r1; rename z into t1 end.
+  pose proof (new_fragment_wf0 lower ctx b) as W0. destruct (new_fragment_Gi lower ctx b) as [G0 A0].
+  destruct (tok_loop_acc lower b LO U fuel [] _ r1 t1 W0 G0 A0 (Forall_nil _) Eh) as (Ha & Hb).
+  mstep EQ. mstep EQ. mstep EQ. mstep EQ.
+  repeat match type of H with context [match ?c with _ => _ end] => destruct c end; try discriminate.
+  injection H as <- <-. cbn [f_end]. split; assumption.
+Qed.
+
